@@ -83,6 +83,8 @@ def run(chk):
     from lib import flagacc
     flagacc.run(chk)
     flagacc.run_shared_flags(chk)
+    from lib import tempsetting
+    tempsetting.run(chk)
 
     return chk.finish(
         level="other",
